@@ -693,11 +693,35 @@ func render(v any) string {
 		}
 		return "E:" + e.Error()
 	}
+	if tooDeep(v, 300) { // a cyclic value (e.g. an argument buffer that ended up inside itself) would overflow the stack in Marshal
+		return "CYCLIC-OR-TOO-DEEP"
+	}
 	b, err := gojq.Marshal(v)
 	if err != nil {
 		return "M:" + err.Error()
 	}
 	return string(b)
+}
+
+func tooDeep(v any, d int) bool {
+	if d < 0 {
+		return true
+	}
+	switch v := v.(type) {
+	case []any:
+		for _, x := range v {
+			if tooDeep(x, d-1) {
+				return true
+			}
+		}
+	case map[string]any:
+		for _, x := range v {
+			if tooDeep(x, d-1) {
+				return true
+			}
+		}
+	}
+	return false
 }
 
 func runProgram(src string, input any) string {
@@ -949,6 +973,8 @@ func customOptions() []gojq.CompilerOption {
 		gojq.WithFunction("n3", 3, 3, arr("n3")),
 		gojq.WithFunction("nsnd", 2, 2, func(_ any, xs []any) any { return xs[1] }),
 		gojq.WithFunction("nerr", 1, 1, func(_ any, xs []any) any { return &valueErr{xs[0]} }),
+		// returns the argument slice ITSELF (a function that keeps or returns what it was given must not see later arguments)
+		gojq.WithFunction("nvec", 1, 3, func(_ any, xs []any) any { return xs }),
 		// overlapping registrations of one name: 0..2 then 1..3, the same relation (which one runs on 1..2 is the arity stream's business)
 		gojq.WithFunction("ov", 0, 2, arr("ov")),
 		gojq.WithFunction("ov", 1, 3, arr("ov")),
@@ -978,6 +1004,9 @@ def d_n2(a; b): b as $b | a as $a | ["n2", ., $a, $b];
 def d_n3(a; b; c): c as $c | b as $b | a as $a | ["n3", ., $a, $b, $c];
 def d_nsnd(a; b): b as $b | a as $a | $b;
 def d_nerr(a): a as $a | error($a);
+def d_nvec(a): a as $a | [$a];
+def d_nvec(a; b): b as $b | a as $a | [$a, $b];
+def d_nvec(a; b; c): c as $c | b as $b | a as $a | [$a, $b, $c];
 def d_ov: ["ov", .];
 def d_ov(a): a as $a | ["ov", ., $a];
 def d_ov(a; b): b as $b | a as $a | ["ov", ., $a, $b];
@@ -1007,9 +1036,9 @@ def d_i2(a; b): b as $b | a as $a | (["i2", ., $a, $b], $a);
 	return b.String()
 }
 
-var customArity = map[string][]int{"n0": {0}, "nid": {0}, "n1": {1}, "n2": {2}, "n3": {3}, "nsnd": {2}, "nerr": {1},
+var customArity = map[string][]int{"n0": {0}, "nid": {0}, "n1": {1}, "n2": {2}, "n3": {3}, "nsnd": {2}, "nerr": {1}, "nvec": {1, 2, 3},
 	"ov": {0, 1, 2, 3}, "igen": {1}, "iempty": {0, 1}, "ione": {0}, "ierr": {1}, "i2": {2}}
-var customNames = []string{"n0", "nid", "n1", "n2", "n3", "nsnd", "nerr", "ov", "igen", "iempty", "ione", "ierr", "i2"}
+var customNames = []string{"n0", "nid", "n1", "n2", "n3", "nsnd", "nerr", "nvec", "ov", "igen", "iempty", "ione", "ierr", "i2"}
 
 var customArgs = []string{"1", ".", "(1,2)", "(.[]?)", "empty", `error("e")`, `"s"`, "(3,4,5)", ".a?", "first(range(3))",
 	"(label $o | 1, break $o, 2)", ".[0]?", "[.]", "(10,20)", "null", "(.a?, .b?)", "try error(1) catch 2", "$v"}
